@@ -34,6 +34,7 @@ type Res struct {
 	Stack    string   `json:"stack,omitempty"`
 	Out      []byte   `json:"out"`
 	OutMiss  bool     `json:"outmiss,omitempty"`
+	OutSize  int64    `json:"outsize,omitempty"`
 	Log      []string `json:"log,omitempty"`
 	Stdout   string   `json:"stdout,omitempty"`
 	Steps    uint64   `json:"steps,omitempty"`
@@ -337,6 +338,45 @@ func (p *Pool) RunAll(reqs []Req) []Res {
 				rq := reqs[i]
 				rq.ID = i
 				out[i] = p.do(w, rq)
+			}
+			if w != nil {
+				w.stop()
+			}
+		}(k)
+	}
+	wg.Wait()
+	return out
+}
+
+// RunGrouped runs groups of requests; the requests of one group go to the same
+// worker process back to back (group g goes to worker g mod n), so that a case
+// made of several assemblies observes them as one process would.
+func (p *Pool) RunGrouped(groups [][]Req) [][]Res {
+	n := p.n
+	if n > len(groups) {
+		n = len(groups)
+	}
+	out := make([][]Res, len(groups))
+	if n == 0 {
+		return out
+	}
+	var wg sync.WaitGroup
+	for k := 0; k < n; k++ {
+		wg.Add(1)
+		go func(k int) {
+			defer wg.Done()
+			w, err := p.newWorker()
+			for g := k; g < len(groups); g += n {
+				rs := make([]Res, len(groups[g]))
+				for j, rq := range groups[g] {
+					if err != nil {
+						rs[j] = Res{Infra: "cannot start worker: " + err.Error()}
+						continue
+					}
+					rq.ID = j
+					rs[j] = p.do(w, rq)
+				}
+				out[g] = rs
 			}
 			if w != nil {
 				w.stop()
